@@ -9,7 +9,7 @@ IMPL = 'harness/impl/c12_impl.py'
 ALLOWED_AXIOMS = []
 # model flags: Base58 lower-casing retry (irrelevant for every generated input: none contains 'I' or 'O'),
 # fixes/C12-1 applied, fixes/C12-2 applied.  VERIF_C12_FLAGS=000 selects the model of the code before the repairs.
-FLAGS = os.environ.get('VERIF_C12_FLAGS', '011')
+FLAGS = os.environ.get('VERIF_C12_FLAGS', '011')[:3]
 ASSUMPTIONS = [
     'theorems are about coq/Model/KeyFormat.v (lib_* mirrors keys.get_key_format, check_network_and_key, Key.__init__, '
     'Key.wif, HDKey.__init__, HDKey.from_wif, HDKey.wif and networks.wif_prefix_search / network_by_value / Network.wif_prefix, '
@@ -19,6 +19,8 @@ ASSUMPTIONS = [
     'by vm_compute; (b) differential correspondence of every lib_* function against the public API on each run',
     'Base58 is Model/Base58.v with the lemmas of Proofs/Base58.v (C11: decode(encode b) = b, digit lemmas); no premise is left in '
     'any C12 theorem (all closed under the global context)',
+    'the numeric part of the strict public-key test of Key.__init__ (x < p, y < p, curve equation) is the oracle curve_ok of the '
+    'model, answered per request by the harness (props/c12.py on_curve); theorems about public keys carry curve_ok pub = true as a premise',
     'the model is a codec over bytes: the public point of a secret is supplied by the caller, never derived (C04); SHA-256d is '
     'the executable Crypto/Sha256.v (only "checksum of the same payload matches" is used); BIP38 decryption (C15), addresses '
     '(C05/C11), tuple input, integer range checks (C04), Python int()/bytes.fromhex() leniency (whitespace, underscores) are not modelled',
@@ -286,6 +288,38 @@ def gen_cases(rng, tier):
             for ip in 'ntf':
                 add('gkf_raw', 'gkf %s %s' % (f, ip))
 
+    # secrets outside 1 .. n-1 and public keys that are not curve points (refused since the C04 repairs)
+    for v in (0, N, N + 1, 2 ** 256 - 1):
+        sb = v.to_bytes(32, 'big')
+        for f in ('i:%d' % v, 'b:' + hx(sb), stok(sb.hex()), stok(sb.hex() + '01'), 'b:' + hx(sb + b'\1')):
+            for hint in ('-', 'testnet'):
+                add('key_range', 'key %s %s t n' % (f, hint))
+                add('hdkey_range', 'hdkey %s %s - f t' % (f, hint))
+        for ver in (b'\x80', b'\xef'):
+            for fl in (b'', b'\1'):
+                w = b58check(ver + sb + fl)
+                add('key_range', 'key %s - t n' % stok(w))
+                add('hdkey_range', 'hdkey %s - - f t' % stok(w))
+        xp = b58check(bytes.fromhex('0488ade4') + b'\0' * 9 + b'\x11' * 32 + b'\0' + sb)
+        add('hdkey_range', 'hdkey %s - - f t' % stok(xp))
+        add('hdkey_range', 'fromwif %s - n t' % hx(xp.encode()))
+        sec0, pubc0, pubu0 = pool[0]
+        add('rt_range', 'rtwif %s key - t n' % km_tokens(True, sb, pubc0, pubu0, True, b'\1' * 32, 0, b'\0' * 4, 0, 'bitcoin', 'legacy', False))
+        add('rt_range', 'rtx prv %s hdkey - - f t' % km_tokens(True, sb, pubc0, pubu0, True, b'\1' * 32, 0, b'\0' * 4, 0, 'bitcoin', 'legacy', False))
+    for _ in range(60 if big else 20):
+        xb = bytes(rng.randrange(256) for _ in range(32))
+        yb = bytes(rng.randrange(256) for _ in range(32))
+        for pk in (b'\x02' + xb, b'\x03' + xb, b'\x04' + xb + yb, b'\x04' + xb, b'\x02' + xb + yb, b'\x02' + b'\xff' * 32):
+            add('key_offcurve', 'key b:%s - t n' % hx(pk))
+            add('key_offcurve', 'key %s - t n' % stok(pk.hex()))
+            if len(pk) == 33:
+                xp = b58check(bytes.fromhex('0488b21e') + b'\0' * 9 + b'\x11' * 32 + pk)
+                add('hdkey_offcurve', 'hdkey %s - - f t' % stok(xp))
+                add('hdkey_offcurve', 'fromwif %s - n t' % hx(xp.encode()))
+    sec0, pubc0, pubu0 = pool[1]
+    bad = b'\x02' + b'\xff' * 32
+    add('rt_range', 'rtx pub %s hdkey - - f t' % km_tokens(False, sec0, bad, pubu0, True, b'\1' * 32, 0, b'\0' * 4, 0, 'bitcoin', 'legacy', False))
+
     # --- E. classification of well-formed and damaged self-describing strings
     def mutate(s):
         i = rng.randrange(len(s))
@@ -344,8 +378,49 @@ def gen_cases(rng, tier):
     return cs
 
 
+def on_curve(b):
+    """numeric part of Key.__init__'s strict point test on public key bytes (the model's curve_ok oracle):
+    x < p, and for 65 bytes y < p with y^2 = x^3 + 7, for 33 bytes x^3 + 7 a square"""
+    if len(b) not in (33, 65):
+        return True
+    x = int.from_bytes(b[1:33], 'big')
+    if x >= P:
+        return False
+    y2 = (pow(x, 3, P) + 7) % P
+    if len(b) == 65:
+        y = int.from_bytes(b[33:], 'big')
+        return y < P and y * y % P == y2
+    y = pow(y2, (P + 1) // 4, P)
+    return y * y % P == y2
+
+
+def submitted_public_key(t):
+    """the one byte string a request can submit to the strict public-key test"""
+    def of_text(s):
+        if len(s) in (66, 130) and set(s) <= set('0123456789abcdefABCDEF'):
+            return bytes.fromhex(s)
+        b = b58dec(s)
+        if b is not None and len(b) >= 78:
+            return b[45:78]
+        return None
+    k = t[0]
+    if k in ('key', 'hdkey'):
+        if t[1].startswith('b:'):
+            return unhx(t[1][2:])
+        if t[1].startswith('s:'):
+            return of_text(unhx(t[1][2:]).decode('latin-1'))
+    elif k == 'fromwif':
+        return of_text(unhx(t[1]).decode('latin-1'))
+    elif k in ('rtwif', 'rtx'):
+        m = t[1:13] if k == 'rtwif' else t[2:14]
+        if m[0] == 'f':
+            return unhx(m[2]) if m[4] == 't' else unhx(m[3])
+    return None
+
+
 def model_req(c):
-    return FLAGS + ' ' + c.req
+    b = submitted_public_key(c.req.split(' '))
+    return FLAGS + ('t' if b is None or on_curve(b) else 'f') + ' ' + c.req
 
 
 def same(c, impl_out, model_out):
@@ -452,9 +527,9 @@ def check_raw(t, out):
         b = unhx(body)
         if len(b) == 32 and 0 < int.from_bytes(b, 'big') < N:
             want = (True, b, comp == 't')
-        elif len(b) == 33 and b[0] in (2, 3):
+        elif len(b) == 33 and b[0] in (2, 3) and on_curve(b):
             want = (False, b, True)
-        elif len(b) == 65 and b[0] == 4:
+        elif len(b) == 65 and b[0] == 4 and on_curve(b):
             want = (False, b, False)
     else:
         s = unhx(body).decode('latin-1')
@@ -462,9 +537,9 @@ def check_raw(t, out):
         if set(s) <= hexdigits:
             if len(s) == 64 and 0 < int(s, 16) < N:
                 want = (True, bytes.fromhex(s), comp == 't')
-            elif len(s) == 66 and s[:2] in ('02', '03'):
+            elif len(s) == 66 and s[:2] in ('02', '03') and on_curve(bytes.fromhex(s)):
                 want = (False, bytes.fromhex(s), True)
-            elif len(s) == 130 and s[:2] == '04':
+            elif len(s) == 130 and s[:2] == '04' and on_curve(bytes.fromhex(s)):
                 want = (False, bytes.fromhex(s), False)
     if want is None:
         return None
@@ -497,7 +572,7 @@ def check_rtwif(t, out):
     priv, sec, comp, net = t[1] == 't', unhx(t[2]), t[5] == 't', t[10]
     via, args = t[13], t[14:]
     if out.startswith('EXPORT'):
-        return None if (not priv or int.from_bytes(sec, 'big') == 0) else 'wif() of a private key fails: ' + out
+        return None if (not priv or not 0 < int.from_bytes(sec, 'big') < N) else 'wif() of a private key fails: ' + out
     if not priv:
         return 'wif() of a public key returns ' + out[:60]
     sp = split_answer(out)
@@ -545,7 +620,9 @@ def check_rtx(t, out):
     prefix = spec_row_prefix(net, as_priv, wt, ms)
     in_range = 0 <= depth < 256 and 0 <= child < 2 ** 32
     if out.startswith('EXPORT'):
-        return None if (prefix is None or not in_range) else 'export of a representable extended key fails: ' + out
+        valid_key = (0 < int.from_bytes(sec, 'big') < N) if priv else \
+            (on_curve(pubc if comp else pubu) and (pubc if comp else pubu)[:1] in ((b'\x02', b'\x03') if comp else (b'\x04',)))
+        return None if (prefix is None or not in_range or not valid_key) else 'export of a representable extended key fails: ' + out
     sp = split_answer(out)
     if sp is None:
         return 'unexpected answer %r' % out[:120]
